@@ -256,6 +256,16 @@ func NewView(rec *world.Rec) *View {
 			}
 		}
 	}
+	if v.UpdateRev == "" {
+		// the create answered AlreadyExists for an identical revision (an earlier incarnation made it)
+		for _, c := range rec.Calls {
+			if c.Verb == "get" && c.Resource == "controllerrevisions" && c.OK() {
+				if r, ok := c.Result.(*appsv1.ControllerRevision); ok && RevTemplateSig(r) == v.SetTmpl {
+					v.UpdateRev = r.Name
+				}
+			}
+		}
+	}
 	if _, ok := v.Revs[set.Status.CurrentRevision]; ok && set.Status.CurrentRevision != "" {
 		v.CurrentRev = set.Status.CurrentRevision
 	} else {
